@@ -836,8 +836,8 @@ void File::uncompressedFile2CompressedFile() {
         /* no compression */
         logContainer.compress(0, 0);
     } else {
-        /* zlib compression */
-        logContainer.compress(2, compressionLevel);
+        /* zlib compression; the Vector level 10 ("maximum compression") is zlib's highest level, 9 */
+        logContainer.compress(2, (compressionLevel > 9) ? 9 : compressionLevel);
     }
 
     /* write log container */
